@@ -152,7 +152,12 @@ func init() {
 		b.WriteString("\n")
 
 		// Disassemble: the ALU operator list and the extension threshold
-		fd, err = p.Func("RawInstruction.Disassemble")
+		// the decoder proper: the unexported disassemble (behind the reassembly guard of Disassemble), or
+		// Disassemble itself on trees that predate the guard
+		fd, err = p.Func("RawInstruction.disassemble")
+		if err != nil {
+			fd, err = p.Func("RawInstruction.Disassemble")
+		}
 		if err != nil {
 			return "", err
 		}
